@@ -23,11 +23,16 @@ func deepToLiquid(value any, depth int) any {
 		if !mayHoldIndirection(rv.Type().Elem().Kind()) {
 			return value
 		}
-		out := make(map[any]any, rv.Len())
+		// the result keeps the key type, so that it can still be given to encoding/json
+		out := reflect.MakeMapWithSize(reflect.MapOf(rv.Type().Key(), anyType), rv.Len())
 		for _, key := range SortedMapKeys(rv) {
-			out[key.Interface()] = deepToLiquid(rv.MapIndex(key).Interface(), depth+1)
+			elem := reflect.New(anyType).Elem()
+			if v := deepToLiquid(rv.MapIndex(key).Interface(), depth+1); v != nil {
+				elem.Set(reflect.ValueOf(v))
+			}
+			out.SetMapIndex(key, elem)
 		}
-		return out
+		return out.Interface()
 	case reflect.Slice, reflect.Array:
 		if b, isBytes := value.([]byte); isBytes {
 			if depth > 0 {
@@ -47,6 +52,8 @@ func deepToLiquid(value any, depth int) any {
 		return value
 	}
 }
+
+var anyType = reflect.TypeOf((*any)(nil)).Elem()
 
 func mayHoldIndirection(k reflect.Kind) bool {
 	switch k {
